@@ -246,6 +246,121 @@ def inline_x_tie(ctx: Ctx, drv: Driver, n: int) -> None:
 
 
 def tie_leaf(ctx: Ctx, drv: Driver, quick: bool) -> None:
-    """both ties of the translated regular expressions and of the inline leaf rules"""
+    """the ties of the translated regular expressions, of the inline leaf rules and of the link rule"""
     rx_subtie(ctx, drv, 60 if quick else 700)
     inline_x_tie(ctx, drv, 1500 if quick else 40000)
+    inline_l_tie(ctx, drv, 2000 if quick else 50000)
+
+
+LINK_ATOMS = ["a", "b", " ", "\n", "*", "**", "_", "`", "[", "]", "](", ")", "(u)", "(", "[a](b)", "[a](<b c>)", "[a](b \"t\")", "[a](b 't' )",
+              "[a]( b (t) )", "[a][r]", "[r][]", "[r]", "[R]", "[foo  bar]", "[a][Foo\tBar]", "[a](javascript:x)", "[a](\\))", "[a](b\\ c)", "[a](b(c)d)",
+              "[a](<b>c)", "[*a*](u)", "[a *b](u)*", "[[a](u)](v)", "[a](&amp;)", "[a](b\n\"t\")", "![", "\\[", "\\]", "`]`", "<http://x.y>", "[<http://x.y>](u)",
+              "[a](u \"t\\\"q\")", "[a](<u\\>v>)", "[a]()", "[a](<>)", "[]()", "[](u)", "[a](u 't)", "[a](u \"t\" x)", "[a] (u)", "[a]\n[r]", "[a][]", "[é]",
+              "&amp;", "&#35;", "\\", "~~", "[a](b)c)", "[a]((((u))))", "[a](" + "(" * 33 + "u" + ")" * 33 + ")", "[a](u\x7f)", "[a](\tu\t)", "[~~a~~~](u)",
+              "[a](data:image/png;base64,x)", "[a](DATA:text/html,x)", "[a](u '&quot;t&#x22;')"]
+
+
+def inline_l_tie(ctx: Ctx, drv: Driver, n: int) -> None:
+    """the inline sub-parser with the `link` rule (driver `inlinel`): skipToken with its position memo, label / destination / title
+    parsing, references from env, delimiter scopes, the second chain over all scopes"""
+    import importlib
+    import html.entities
+
+    from markdown_it import MarkdownIt
+    from markdown_it.common import normalize_url as nu
+    from markdown_it.common.utils import normalizeReference
+    from markdown_it.common.entities import entities as lib_entities
+    import mdurl
+    from markdown_it import _punycode
+
+    linkmod = importlib.import_module("markdown_it.rules_inline.link")
+    rng = ctx.rng
+
+    def reformat(url: str) -> str:
+        parsed = mdurl.parse(url, slashes_denote_host=True)
+        if parsed.hostname and (not parsed.protocol or parsed.protocol in nu.RECODE_HOSTNAME_FOR):
+            try:
+                parsed = parsed._replace(hostname=_punycode.to_ascii(parsed.hostname))
+            except Exception:
+                pass
+        return mdurl.format(parsed)
+
+    def pairs(d: dict) -> str:
+        return ",".join(f"{enc(k)}={enc(v)}" for k, v in d.items()) or "~"
+
+    subsets = ["tl", "tnl", "tnebl", "tnebml", "tnebsml", "tnebsmlahy", "tml", "tsl", "tbl", "tel", "l", "nebml", "tlahy", "tmlay", "tneblahy"]
+    name_re = re.compile(r"&([^&;\s]{1,40});")
+    ref_sets = [{}, {"r": ("/ref", "")}, {"r": ("/ref", "RT"), "foo bar": ("/fb", "t\"q"), "é": ("/e", "")}, {"R": ("javascript:x", "")}]
+    lines, exp, meta = [], [], []
+    orig_norm = linkmod.normalizeReference
+    try:
+        for it in range(n):
+            rs = rng.choice(subsets)
+            s = "".join(rng.choice(LINK_ATOMS) for _ in range(rng.randint(1, 8)))
+            if "\r" in s or "\x00" in s:
+                continue
+            mn = rng.choice([20, 20, 1, 0, 2, 3, 5])
+            html_on = rng.random() < 0.5
+            fj = rng.random() < 0.8
+            tj = rng.random() < 0.8
+            store = rng.random() < 0.3
+            md = MarkdownIt("zero", {"maxNesting": mn, "html": html_on, "store_labels": store})
+            names = {"n": "newline", "e": "escape", "b": "backticks", "m": "emphasis", "s": "strikethrough", "a": "autolink", "h": "html_inline",
+                     "y": "entity", "l": "link"}
+            en = [names[c] for c in rs if c in names]
+            if en:
+                md.enable(en)
+            if "t" not in rs:
+                md.disable("text")
+            if not fj:
+                md.inline.ruler2.disable("fragments_join")
+            if not tj:
+                md.disable("text_join")
+            refs = rng.choice(ref_sets)
+            has_refs = rng.random() < 0.85
+            env = {"references": {normalizeReference(k): {"href": v[0], "title": v[1]} for k, v in refs.items()}} if has_refs else {}
+            seen_norm, seen_text, seen_ref = {}, {}, {}
+            orig_nl, orig_nt = md.normalizeLink, md.normalizeLinkText
+
+            def nl(u, _o=orig_nl, _d=seen_norm):
+                _d[u] = reformat(u)
+                return _o(u)
+
+            def nt(u, _o=orig_nt, _d=seen_text):
+                r = _o(u)
+                _d[u] = r
+                return r
+
+            def nr(label, _d=seen_ref):
+                r = orig_norm(label)
+                _d[label] = r
+                return r
+
+            md.normalizeLink = nl
+            md.normalizeLinkText = nt
+            linkmod.normalizeReference = nr
+            try:
+                toks = md.parseInline(s, env)
+                e = "ok " + " ".join(enc_toks(toks[0].children or []))
+            except Exception as ex:
+                e = "e:" + type(ex).__name__
+            ents = {m.group(1): lib_entities[m.group(1)] for m in name_re.finditer(s) if m.group(1) in lib_entities}
+            rh = {k: v["href"] for k, v in env.get("references", {}).items()}
+            rt = {k: v["title"] for k, v in env.get("references", {}).items() if v["title"]}
+            lines.append(f"inlinel {mn} {rs or '-'} {1 if fj else 0} {1 if tj else 0} {1 if html_on else 0} {pairs(ents)} "
+                         f"{pairs(seen_norm)} {pairs(seen_text)} {1 if has_refs else 0} {1 if store else 0} {pairs(rh)} {pairs(rt)} {pairs(seen_ref)} {enc(s)}")
+            exp.append(e)
+            meta.append((s, rs, mn, fj, tj, html_on, has_refs, store, sorted(refs)))
+    finally:
+        linkmod.normalizeReference = orig_norm
+    got = drv.batch(lines)
+    nlinks = 0
+    for e, g, m in zip(exp, got, meta):
+        ctx.corr_compared += 1
+        if enc("link_open") + "|" in e:
+            nlinks += 1
+        if e.strip() != g.strip():
+            ctx.mismatch("inline engine with the link rule: implementation and model differ",
+                         {"input": m[0], "rules": m[1], "maxNesting": m[2], "fragments_join": m[3], "text_join": m[4], "html": m[5], "has_refs": m[6],
+                          "store_labels": m[7], "refs": m[8], "impl": e[:600], "model": g[:600]})
+    ctx.cov["inline_l_tie"] = {"documents": len(lines), "with_links": nlinks}
